@@ -40,6 +40,12 @@ Proofs/BytesFacts.vos Proofs/BytesFacts.vok Proofs/BytesFacts.required_vos: Proo
 Proofs/RespFacts.vo Proofs/RespFacts.glob Proofs/RespFacts.v.beautified Proofs/RespFacts.required_vo: Proofs/RespFacts.v Base/Bytes.vo Model/Resp.vo Proofs/BytesFacts.vo
 Proofs/RespFacts.vio: Proofs/RespFacts.v Base/Bytes.vio Model/Resp.vio Proofs/BytesFacts.vio
 Proofs/RespFacts.vos Proofs/RespFacts.vok Proofs/RespFacts.required_vos: Proofs/RespFacts.v Base/Bytes.vos Model/Resp.vos Proofs/BytesFacts.vos
+Proofs/StringsFacts.vo Proofs/StringsFacts.glob Proofs/StringsFacts.v.beautified Proofs/StringsFacts.required_vo: Proofs/StringsFacts.v Base/Bytes.vo Model/Resp.vo Model/Types.vo Model/Glob.vo Model/Strings.vo Proofs/BytesFacts.vo
+Proofs/StringsFacts.vio: Proofs/StringsFacts.v Base/Bytes.vio Model/Resp.vio Model/Types.vio Model/Glob.vio Model/Strings.vio Proofs/BytesFacts.vio
+Proofs/StringsFacts.vos Proofs/StringsFacts.vok Proofs/StringsFacts.required_vos: Proofs/StringsFacts.v Base/Bytes.vos Model/Resp.vos Model/Types.vos Model/Glob.vos Model/Strings.vos Proofs/BytesFacts.vos
 Props/C20.vo Props/C20.glob Props/C20.v.beautified Props/C20.required_vo: Props/C20.v Base/Bytes.vo Model/Resp.vo Proofs/BytesFacts.vo Proofs/RespFacts.vo
 Props/C20.vio: Props/C20.v Base/Bytes.vio Model/Resp.vio Proofs/BytesFacts.vio Proofs/RespFacts.vio
 Props/C20.vos Props/C20.vok Props/C20.required_vos: Props/C20.v Base/Bytes.vos Model/Resp.vos Proofs/BytesFacts.vos Proofs/RespFacts.vos
+Props/C01.vo Props/C01.glob Props/C01.v.beautified Props/C01.required_vo: Props/C01.v Base/Bytes.vo Model/Resp.vo Model/Types.vo Model/Glob.vo Model/Strings.vo Proofs/BytesFacts.vo Proofs/StringsFacts.vo
+Props/C01.vio: Props/C01.v Base/Bytes.vio Model/Resp.vio Model/Types.vio Model/Glob.vio Model/Strings.vio Proofs/BytesFacts.vio Proofs/StringsFacts.vio
+Props/C01.vos Props/C01.vok Props/C01.required_vos: Props/C01.v Base/Bytes.vos Model/Resp.vos Model/Types.vos Model/Glob.vos Model/Strings.vos Proofs/BytesFacts.vos Proofs/StringsFacts.vos
